@@ -317,6 +317,8 @@ pub assume_specification[ std::time::Duration::from_secs ](s: u64) -> (d: std::t
 /// ASSUMPTION: binding a socket and building an address from (ip, port) have no precondition (I/O errors are an `Err`)
 pub assume_specification<A: std::net::ToSocketAddrs>[ std::net::UdpSocket::bind::<A> ](a: A) -> (r: Result<std::net::UdpSocket, std::io::Error>);
 pub assume_specification<I: Into<std::net::IpAddr>>[ <std::net::SocketAddr as From<(I, u16)>>::from ](a: (I, u16)) -> (r: std::net::SocketAddr);
+pub assume_specification[ std::net::UdpSocket::try_clone ](s: &std::net::UdpSocket) -> (r: Result<std::net::UdpSocket, std::io::Error>);
+pub assume_specification[ std::net::SocketAddr::ip ](a: &std::net::SocketAddr) -> (r: std::net::IpAddr);
 pub assume_specification[ std::net::UdpSocket::set_write_timeout ](s: &std::net::UdpSocket, d: Option<std::time::Duration>) -> (r: Result<(), std::io::Error>);
 pub assume_specification[ std::net::UdpSocket::set_read_timeout ](s: &std::net::UdpSocket, d: Option<std::time::Duration>) -> (r: Result<(), std::io::Error>);
 pub assume_specification[ std::net::UdpSocket::peer_addr ](s: &std::net::UdpSocket) -> (r: Result<std::net::SocketAddr, std::io::Error>);
